@@ -45,6 +45,7 @@ type worldCfg struct {
 	nodes    []string // addresses
 	undial   map[string]bool
 	ranges   [][3]interface{} // lo, hi, addr
+	single   bool             // clients send single-key requests only (layouts with two connections per node)
 }
 
 const timeoutMs = 15
@@ -520,7 +521,16 @@ func (w *world) nextRequest(r *rng.R, c int) []byte {
 		}
 		return out
 	}
-	switch r.Intn(27) {
+	kind := r.Intn(27)
+	if w.cfg.single {
+		// two connections per node: which connection a fragment of a split request takes depends on Go
+		// map iteration order, so these layouts keep to single-key requests
+		switch kind {
+		case 3, 4, 5, 6, 7, 13, 22, 23:
+			kind = 14
+		}
+	}
+	switch kind {
 	case 24: // AUTH from a client: right password, wrong password, or no password configured
 		w.tagset["local-reply"] = true
 		w.tagset["auth"] = true
@@ -586,6 +596,9 @@ func (w *world) nextRequest(r *rng.R, c int) []byte {
 			w.tagset["ask"] = true
 			return bulk([]byte("get"), key("ask"))
 		}
+		if w.cfg.single {
+			return bulk([]byte("get"), key(""))
+		}
 		w.tagset["split"] = true
 		return bulk([]byte("mget"), key("a"), key("berr"), key("c"))
 	case 10:
@@ -642,6 +655,9 @@ func layouts(r *rng.R) worldCfg {
 	if r.Chance(15) {
 		cfg.limit = []int{60, 60, 100}[r.Intn(3)]
 	}
+	if r.Chance(20) {
+		cfg.maxConns, cfg.single = 2, true
+	}
 	return cfg
 }
 
@@ -668,6 +684,9 @@ func runHistory(seed uint64, idx int, quick bool) (in sx.V, out sx.V, tags []str
 		return sx.L(), sx.L(sx.S("setup-error")), nil
 	}
 	defer w.s.Close()
+	if cfg.single {
+		w.tagset["two-connections-per-node"] = true
+	}
 	nc := r.Range(1, 3)
 	for i := 0; i < nc; i++ {
 		w.connect("127.0.0.1")
